@@ -45,9 +45,6 @@ pub fn check(c: &Case, st: &mut Stats) -> CheckResult {
         if am == m.as_slice() && actx == ctx.as_slice() && amode == mode {
             return Ok(());
         }
-        if actx.len() > 255 {
-            return Ok(());
-        }
         st.eval();
         st.class(&format!("alt:{name}"));
         if nontrivial {
@@ -66,9 +63,10 @@ pub fn check(c: &Case, st: &mut Stats) -> CheckResult {
     };
     // 1. every other split of ctx || M (same mode): same concatenated bytes
     let concat: Vec<u8> = ctx.iter().chain(m.iter()).copied().collect();
-    for j in 0..=concat.len().min(255) {
+    // (splits that put more than 255 bytes into the context are "other splits" too: they must be rejected)
+    for j in 0..=concat.len().min(300) {
         if j != ctx.len() {
-            alt("resplit", &concat[j..], &concat[..j], mode, true, st)?;
+            alt(if j > 255 { "resplit_ctx>255" } else { "resplit" }, &concat[j..], &concat[..j], mode, true, st)?;
         }
     }
     // 2. bytes moved across the other ends (rotation of the boundary bytes)
@@ -103,6 +101,25 @@ pub fn check(c: &Case, st: &mut Stats) -> CheckResult {
             alt("hash_sig_as_pure_same_msg", &m, &ctx, Mode::Pure, false, st)?;
         }
     }
+    // 3b. header look-alikes: for a hash-mode signature, every string obtained from the formatted input
+    // 01 || len || ctx || OID || PH(M) by swapping / dropping the two header bytes, re-read as a pure-mode
+    // input 00 || len' || ctx' || M'. A formatting slip shared by signer and verifier in one mode only
+    // (header bytes swapped, domain or length byte missing) makes one of these verify.
+    if mode != Mode::Pure {
+        let (oid, phm) = rf::prehash(mode, &m);
+        let body: Vec<u8> = ctx.iter().chain(oid.iter()).chain(phm.iter()).copied().collect();
+        let (dom, len) = (1u8, ctx.len() as u8);
+        let headers: [&[u8]; 7] = [&[len, dom], &[len], &[dom], &[], &[0, len], &[len, 0], &[0]];
+        for (hi, hd) in headers.iter().enumerate() {
+            let sbytes: Vec<u8> = hd.iter().chain(body.iter()).copied().collect();
+            if sbytes.len() >= 2 && sbytes[0] == 0 {
+                let l2 = sbytes[1] as usize;
+                if sbytes.len() >= 2 + l2 {
+                    alt(&format!("hash_sig_header_lookalike_{hi}"), &sbytes[2 + l2..], &sbytes[2..2 + l2], Mode::Pure, true, st)?;
+                }
+            }
+        }
+    }
     if mode == Mode::Pure {
         // the reverse mimic: sign (pure) the string OID||PH(X) for X = m, then hash_verify X
         for ph in [Mode::Sha256, Mode::Sha512, Mode::Shake128] {
@@ -129,9 +146,7 @@ pub fn check(c: &Case, st: &mut Stats) -> CheckResult {
     {
         let mut c2 = vec![ctx.len() as u8];
         c2.extend_from_slice(&ctx);
-        if c2.len() <= 255 {
-            alt("len_byte_inside_ctx", &m, &c2, mode, false, st)?;
-        }
+        alt("len_byte_inside_ctx", &m, &c2, mode, false, st)?;
         let mut m2 = vec![ctx.len() as u8];
         m2.extend_from_slice(&concat);
         alt("empty_ctx_len_byte_in_msg", &m2, &[], mode, false, st)?;
